@@ -100,3 +100,24 @@ func (s *System) VerifFutureCount() (registry int, agents int) {
 	s.futureLock.Unlock()
 	return
 }
+
+// VerifStreamEntries returns, per subscriber path, the number of event types the event stream holds in its
+// forward table (type -> subscribers) and in its reverse table (subscriber -> types).
+func (s *System) VerifStreamEntries() (forward map[string]int, reverse map[string]int) {
+	forward, reverse = map[string]int{}, map[string]int{}
+	es, ok := s.eventStream.(*eventStream)
+	if !ok {
+		return
+	}
+	es.mu.RLock()
+	defer es.mu.RUnlock()
+	for _, subs := range es.subscribers {
+		for path := range subs {
+			forward[path]++
+		}
+	}
+	for path, types := range es.subscriberTypes {
+		reverse[path] += len(types)
+	}
+	return
+}
